@@ -288,12 +288,16 @@ func copyDBIntoSQLite(source, destination *sql.DB,
 		return err
 	}
 	defer tx.Rollback()
-	deleteProfilesQueryStr := fmt.Sprintf("DELETE from user_profile ")
-	if rows, err := destination.Query(deleteProfilesQueryStr); err != nil {
-		logger.Printf("err='%s'", err)
-		return err
-	} else {
-		rows.Close()
+	// The destination becomes an exact copy: previous rows are removed inside
+	// the same transaction, so that a failed copy leaves the old content.
+	for _, deleteStmt := range []string{
+		"DELETE FROM user_profile",
+		"DELETE FROM expiring_signed_user_data",
+	} {
+		if _, err := tx.Exec(deleteStmt); err != nil {
+			logger.Printf("err='%s'", err)
+			return err
+		}
 	}
 	stmtText := saveUserProfileStmt[destinationType]
 	stmt, err := tx.Prepare(stmtText)
@@ -348,6 +352,10 @@ func copyDBIntoSQLite(source, destination *sql.DB,
 			logger.Printf("err='%s'", err)
 			return err
 		}
+	}
+	if err := genericRows.Err(); err != nil {
+		logger.Printf("err='%s'", err)
+		return err
 	}
 	err = tx.Commit()
 	if err != nil {
